@@ -468,22 +468,34 @@ func init() {
 	})
 
 	// ---- math/rand, crypto/rand, wamp random ids ----
+	reg("math/rand.NewSource", func(x *Exec, g *G, a []Value) Value { return Iface{T: nativeCtxType, V: &Native{Kind: "randsrc"}} })
+	reg("math/rand.New", func(x *Exec, g *G, a []Value) Value { return &Native{Kind: "rand"} })
 	reg("(*math/rand.Rand).Int63n", func(x *Exec, g *G, a []Value) Value {
 		n := a[1].(*Term)
-		v := x.input("rand.Int63n", "i64", SBV64)
+		v := x.inputEnv("rand.Int63n", "i64", SBV64)
 		x.assume(And(Sle(MkBV(64, 0), v), Slt(v, n)))
 		return v
 	})
 	reg("(*math/rand.Rand).Intn", func(x *Exec, g *G, a []Value) Value {
 		n := a[1].(*Term)
-		v := x.input("rand.Intn", "i64", SBV64)
+		v := x.inputEnv("rand.Intn", "i64", SBV64)
 		x.assume(And(Sle(MkBV(64, 0), v), Slt(v, n)))
 		return v
 	})
 	reg("github.com/gammazero/nexus/v3/wamp.secureInt63n", func(x *Exec, g *G, a []Value) Value {
 		n := a[0].(*Term)
-		v := x.input("secureInt63n", "i64", SBV64)
+		v := x.inputEnv("secureInt63n", "i64", SBV64)
 		x.assume(And(Sle(MkBV(64, 0), v), Slt(v, n)))
+		if !x.allowIDCollide {
+			// freshness assumption: a random id differs from the meta session
+			// id (1) and from every random id drawn earlier on this path
+			cs := []*Term{Not(Eq(v, MkBV(64, 0)))}
+			for _, o := range x.randIDs {
+				cs = append(cs, Not(Eq(v, o)))
+			}
+			x.assume(And(cs...))
+			x.randIDs = append(x.randIDs, v)
+		}
 		return v
 	})
 	reg("github.com/gammazero/nexus/v3/wamp.NowISO8601", func(x *Exec, g *G, a []Value) Value {
@@ -492,7 +504,7 @@ func init() {
 	reg("crypto/rand.Read", func(x *Exec, g *G, a []Value) Value {
 		s := a[0].(SliceV)
 		for i := range s.A {
-			s.A[i] = x.input(fmt.Sprintf("crypto/rand[%d]", i), "u8", SBV8)
+			s.A[i] = x.inputEnv(fmt.Sprintf("crypto/rand[%d]", i), "u8", SBV8)
 		}
 		return TupleV{MkBV(64, uint64(len(s.A))), Iface{}}
 	})
